@@ -1,5 +1,6 @@
 """Replays for C16 on the real code: export / import round trip of hand-built process tensors."""
 import os
+import shutil
 import tempfile
 import numpy as np
 
@@ -69,5 +70,36 @@ def roundtrip(inp):
     return {'violates': bool(bad), 'detail': bad[:4]}
 
 
+def rename_then_import(inp):
+    """name / description assigned AFTER a file-backed process tensor was created must come back from an import"""
+    import oqupy
+    from oqupy.process_tensor import FileProcessTensor, import_process_tensor
+    bad = []
+    d = tempfile.mkdtemp(prefix='c16_')
+    try:
+        for k, (nm, ds) in enumerate((('second name', None), (None, 'second description'), ('second name', 'second description'))):
+            fn = os.path.join(d, 'pt%d.hdf5' % k)
+            pt = FileProcessTensor(mode='write', filename=fn, hilbert_space_dimension=2, dt=0.1, name='first name', description='first description')
+            pt.set_mpo_tensor(0, np.ones((1, 1, 4, 4)))
+            pt.set_cap_tensor(0, np.array([1.0]))
+            pt.set_cap_tensor(1, np.array([1.0]))
+            if nm is not None:
+                pt.name = nm
+            if ds is not None:
+                pt.description = ds
+            want = (pt.name, pt.description)
+            pt.close()
+            for kind in ('file', 'simple'):
+                q = import_process_tensor(fn, kind)
+                got = (q.name, q.description)
+                if kind == 'file':
+                    q.close()
+                if got != want:
+                    bad.append({'assigned': {'name': nm, 'description': ds}, 'import': kind, 'read back': got, 'required': want})
+    finally:
+        shutil.rmtree(d, ignore_errors=True)
+    return {'violates': bool(bad), 'detail': bad[:4]}
+
+
 # thorough tier (bounded native sweeps): (function, inputs, obligation of the open finding it reproduces or None)
-THOROUGH = [('roundtrip', {}, None)]
+THOROUGH = [('roundtrip', {}, None), ('rename_then_import', {}, None)]
